@@ -234,7 +234,7 @@ class Verifier:
             ns = dict(bound)
             if cc is not None and cc.inv is not None and not c.is_init and c.assume_inv \
                     and 'self' in bound:
-                ctx.assume(it.truth(it.run_body(cc.inv, {'self': bound['self']})))
+                ctx.assume(it.truth(calls.run_inv(it, cc, bound['self'])))
             for name, rfn in c.requires:
                 ctx.assume(it.truth(calls.eval_clause(it, rfn, ns)))
             ctx.entry = V.clone_value(dict(bound), {}) if False else \
@@ -263,7 +263,7 @@ class Verifier:
                         ctx.oblige(f'{short}/noexc/{exc.__name__}',
                                    b_not(it.truth(calls.eval_clause(it, cfn, ns_old))), where=short)
                 if cc is not None and cc.inv is not None and c.check_inv and 'self' in bound:
-                    ctx.oblige(f'{short}/inv', it.truth(it.run_body(cc.inv, {'self': bound['self']})),
+                    ctx.oblige(f'{short}/inv', it.truth(calls.run_inv(it, cc, bound['self'])),
                                where=short)
                 for name, cfn in c.covers:
                     # cover: the situation is reachable, i.e. its negation is NOT provable
@@ -300,10 +300,14 @@ class Verifier:
                     if cc is not None and cc.inv is not None and c.check_inv and \
                             not c.is_init and 'self' in bound:
                         ctx.oblige(f'{short}/excinv',
-                                   it.truth(it.run_body(cc.inv, {'self': bound['self']})),
+                                   it.truth(calls.run_inv(it, cc, bound['self'])),
                                    where=short)
 
-        return self.explore(res, run_path)
+        self.explore(res, run_path)
+        for name, _ in c.covers:
+            if not res.engine_error and res.exits.get(f'cover:{name}', 0) == 0:
+                res.engine_error = f'vacuity: cover {name!r} is unreachable under the contract'
+        return res
 
     # -- lemma -----------------------------------------------------------------------------------
     def verify_lemma(self, lem):
